@@ -311,6 +311,79 @@ func (g *gen) request(depth int, enclosing map[string]bool) []Macro {
 	return ops
 }
 
+// deleteInFlight: object life-cycle under load. A request (token / authorization / whole chain) is being reviewed by
+// cluster A when A is deleted and stopped (every server name, as DeleteForServerNames does), its clean-up runs, and often a
+// new instance is created under the same name; only then does A's answer arrive. Afterwards the SAME credentials are
+// presented to (host, cluster) pairs that have no cache yet — the re-created cluster, other clusters through their names and
+// aliases — each of which must ask its own cluster: nothing of the stopped cluster may reach them.
+func (g *gen) deleteInFlight() []Macro {
+	var names []string
+	for _, n := range clusterNames {
+		if i, ok := g.keys[n]; ok && !g.stopped[i] && len(g.eps[i]) > 0 {
+			names = append(names, n)
+		}
+	}
+	if len(names) == 0 {
+		return nil
+	}
+	g.feat["delete-in-flight"] = true
+	name := g.pick(names)
+	inst := g.keys[name]
+	tok, attrs := g.pick(g.toks), g.r.Intn(len(g.cs.Attrs))
+	kind := []string{"sar", "sar", "tok", "pipe"}[g.r.Intn(4)]
+	req := func(host string) Macro {
+		switch kind {
+		case "tok":
+			return Macro{Op: "tok", Host: rig.Hex(host), Tok: rig.Hex(tok), Bound: g.r.Intn(3) == 0}
+		case "pipe":
+			t := rig.Hex("admin")
+			return Macro{Op: "pipe", Host: rig.Hex(host), Tok: rig.Hex(tok), Attrs: -1, Target: &t}
+		}
+		return Macro{Op: "sar", Host: rig.Hex(host), Attrs: attrs, Bound: g.r.Intn(3) == 0}
+	}
+	// while the review is held open: delete and stop A, let its clean-up run, maybe re-create it
+	var during []Macro
+	for _, k := range g.mappedKeys() {
+		if g.keys[k] == inst {
+			delete(g.keys, k)
+			during = append(during, g.ev(Ev{E: "delStop", Key: rig.Hex(k)}))
+		}
+	}
+	g.stopped[inst] = true
+	during = append(during, g.ev(Ev{E: "dropStopped"}))
+	if g.r.Intn(100) < 60 && g.nextInst < g.maxInst {
+		id, more := g.newInst(name)
+		during = append(during, more...)
+		during = append(during, g.add(name, id))
+	}
+	m := req(name)
+	switch kind {
+	case "tok":
+		m.Mid2 = during
+	case "pipe":
+		if g.r.Intn(2) == 0 {
+			m.Mid = during
+		} else {
+			m.Mid2 = during
+		}
+	default:
+		m.Mid = during
+	}
+	ops := []Macro{m, g.ev(Ev{E: "dropStopped"})}
+	// the same credentials for pairs that have no cache yet
+	hosts := []string{name}
+	for _, h := range append(append([]string{}, clusterNames...), aliases...) {
+		if h != name {
+			hosts = append(hosts, h)
+		}
+	}
+	g.r.Shuffle(len(hosts), func(i, j int) { hosts[i], hosts[j] = hosts[j], hosts[i] })
+	for _, h := range hosts[:2+g.r.Intn(3)] {
+		ops = append(ops, req(h), g.ev(Ev{E: "dropStopped"}))
+	}
+	return ops
+}
+
 // readyInsts: live instances that (as far as the generator knows) have an endpoint
 func (g *gen) readyInsts() []int {
 	var l []int
@@ -626,6 +699,8 @@ func genCase(r *rand.Rand, profile string, tokRetries bool) (*Case, map[string]b
 		switch {
 		case x < 7:
 			cs.Ops = append(cs.Ops, g.thereAndBack()...)
+		case x < 12:
+			cs.Ops = append(cs.Ops, g.deleteInFlight()...)
 		case x < 19:
 			cs.Ops = append(cs.Ops, g.pipe()...)
 		case x < 74:
